@@ -10,7 +10,7 @@ import (
 
 // Facts of the loop's handling of queue errors (C15, lean/QuartzModel/Sched/Faults.lean):
 //   - the `switch` of startExecutionLoop: case conditions in order and the argument of timer.Reset in each;
-//   - calculateNextTick: what it returns when Head() fails / returns ErrQueueEmpty / succeeds;
+//   - calculateNextTick: what it returns when Head() fails / returns ErrQueueEmpty (RetryInterval in both cases) / succeeds;
 //   - the tick sets the back-off state from executeAndReschedule's error and nothing else assigns it
 //     (`if err := sched.executeAndReschedule(ctx); err != nil { retryAt = time.Now().Add(sched.opts.RetryInterval) }`
 //     on a zero-initialised `var retryAt time.Time`), executeAndReschedule returns fetchAndReschedule's error,
@@ -404,6 +404,23 @@ func extractFaults(repo string, fx *Facts) {
 								ff.HeadEmptyReturns = "zero"
 							}
 						}
+					}
+				}
+				// no return of its own for ErrQueueEmpty (the errors.Is branch only logs, or does not exist): if the block's
+				// final return is its only way out, the ErrQueueEmpty case returns what any other error returns
+				if ff.HeadEmptyReturns == "?" {
+					exits := 0
+					ast.Inspect(eb.Body, func(n ast.Node) bool {
+						switch n.(type) {
+						case *ast.ReturnStmt, *ast.BranchStmt:
+							exits++
+						case *ast.FuncLit:
+							return false
+						}
+						return true
+					})
+					if exits == 1 && fqLastReturn(eb.Body.List) != nil {
+						ff.HeadEmptyReturns = ff.HeadErrReturns
 					}
 				}
 			}
